@@ -255,8 +255,9 @@ func (p *peer) Dial(addr string, protoFunc ...ProtoFunc) (Session, *Status) {
 				oldConn.Close()
 			}
 			sess.changeStatus(statusOk)
-			AnywayGo(sess.startReadAndHandle)
+			// index before reading starts, so that a disconnect seen by the reader removes it again
 			p.sessHub.set(sess)
+			AnywayGo(sess.startReadAndHandle)
 			Infof("redial ok (network:%s, addr:%s, id:%s)", p.network, addr, sess.ID())
 			return true
 		}
@@ -264,8 +265,9 @@ func (p *peer) Dial(addr string, protoFunc ...ProtoFunc) (Session, *Status) {
 
 	Infof("dial ok (network:%s, addr:%s, id:%s)", p.network, addr, sess.ID())
 	sess.changeStatus(statusOk)
-	AnywayGo(sess.startReadAndHandle)
+	// index before reading starts, so that a disconnect seen by the reader removes it again
 	p.sessHub.set(sess)
+	AnywayGo(sess.startReadAndHandle)
 	return sess, nil
 }
 
@@ -294,8 +296,9 @@ func (p *peer) ServeConn(conn net.Conn, protoFunc ...ProtoFunc) (Session, *Statu
 	}
 	Infof("serve ok (network:%s, addr:%s, id:%s)", network, sess.RemoteAddr().String(), sess.ID())
 	sess.changeStatus(statusOk)
-	AnywayGo(sess.startReadAndHandle)
+	// index before reading starts, so that a disconnect seen by the reader removes it again
 	p.sessHub.set(sess)
+	AnywayGo(sess.startReadAndHandle)
 	return sess, nil
 }
 
